@@ -45,15 +45,21 @@ def zipCols : List Str → List Str → List Str
   | n :: ns, c :: cs => (ljust 12 n ++ c) :: zipCols ns cs
   | _, _ => []
 
-/-- `_to_lines(name, content, subfields)`. -/
+/-- `_to_lines(name, content, subfields)` (repaired: names that do not fit the name column or
+start with `//`, subfield names longer than 10 characters, unindented FEATURES/ORIGIN content
+lines and empty content are rejected with `ValueError`). -/
 def gbToLines (name : Str) (content : List Str) (subs : List (Str × List Str)) : Except Err (List Str) :=
   let name := upper (strip name)
   if name.isEmpty then .error .valueError else
+  if 12 < name.length ∨ name.take 2 = ['/', '/'] then .error .valueError else
+  let subs := odOfList (subs.map (fun p => (strip (upper p.1), p.2)))
+  if subs.any (fun p => decide (10 < p.1.length)) then .error .valueError else
+  if (name = "FEATURES".toList ∨ name = "ORIGIN".toList) ∧
+      content.any (fun l => !l.isEmpty && l.head? != some ' ') then .error .valueError else
   if name = "FEATURES".toList then .ok (("FEATURES".toList ++ List.replicate 13 ' ' ++ "Location/Qualifiers".toList) :: content)
   else if name = "ORIGIN".toList then .ok ("ORIGIN".toList :: content)
   else
-    let subs := odOfList (subs.map (fun p => (strip (upper p.1), p.2)))
-    if content.isEmpty ∨ subs.any (·.2.isEmpty) then .error .valueError else   -- repaired: rejected
+    if content.isEmpty ∨ subs.any (·.2.isEmpty) then .error .valueError else
     let nameCol := (name :: List.replicate (content.length - 1) []) ++
       subs.flatMap (fun p => (' ' :: ' ' :: p.1) :: List.replicate (p.2.length - 1) [])
     let contentCol := content ++ subs.flatMap (·.2)
